@@ -49,8 +49,12 @@ def cases(rng, tier, shard, nshards):
         N = int(rng.integers(1, 21))
         terms = int(rng.integers(0, 6))
         ncols = int(rng.integers(0, 5))   # 0 -> 1-d sequence
+        rtype = 'float'
+        if rng.random() < 0.12 and not cplx:
+            r = float(rng.choice([2, 3, 4, 5, 8, 10, 16]))         # an integral ratio given as an integer type
+            rtype = str(rng.choice(['int', 'np_int64', 'np_int32', 'zero_d_int']))
         yield dict(r=r, theta=theta, spacing=int(rng.integers(1, 5)), order=int(rng.integers(1, 9)),
-                   num_terms=terms, N=N, ncols=ncols, seed=int(rng.integers(0, 2 ** 31)))
+                   num_terms=terms, N=N, ncols=ncols, seed=int(rng.integers(0, 2 ** 31)), rtype=rtype)
 
 
 def _ratio(case):
@@ -70,8 +74,13 @@ def run_case(case, ctx):
         ctx.count('complex_ratio_cases')
     if used < T:
         ctx.count('short_sequence_cases')
+    rho_given = rho
+    rt = case.get('rtype', 'float')
+    if rt != 'float':
+        ctx.count('integer_typed_step_ratio_cases')
+        rho_given = {'int': int(rho), 'np_int64': np.int64(rho), 'np_int32': np.int32(rho), 'zero_d_int': np.array(int(rho))}[rt]
     try:
-        rich = Richardson(step_ratio=rho, step=spacing, order=order, num_terms=T)
+        rich = Richardson(step_ratio=rho_given, step=spacing, order=order, num_terms=T)
         if case['seed'] % 2:
             # history: the same extrapolator has already served a sequence of another length (shorter than
             # num_terms + 1 in half of the cases); nothing of that may survive into the call that is judged
